@@ -17,10 +17,13 @@ Open Scope Z_scope.
 
 Definition sample (xs : list Z) (i : nat) : Z := nth i xs 0.
 
-(* zcs = np.where(np.diff(np.sign(elev)))[0]: indices i with sign(elev[i]) <> sign(elev[i+1]);
-   np.sign is three-valued, so an exact zero sample between two non-zero ones yields TWO indices *)
-Definition sign_change (xs : list Z) (i : nat) : bool :=
-  negb (Z.sgn (sample xs i) =? Z.sgn (sample xs (S i))).
+(* zcs = np.where(np.diff(np.signbit(elev)))[0]: indices i where exactly one of elev[i], elev[i+1]
+   has its sign bit set.  On the model's domain (no -0.0 and no NaN among the samples: elev is
+   `arcsin-degrees - horizon`, and x - y is -0.0 only for x = -0.0, y = +0.0, which needs the
+   topocentric z component to be exactly -0.0) signbit(x) is `x < 0`, the same test as the
+   classification `if elev[guess] < 0`.  A sample exactly on the horizon counts as above it. *)
+Definition neg (xs : list Z) (i : nat) : bool := sample xs i <? 0.
+Definition sign_change (xs : list Z) (i : nat) : bool := negb (Bool.eqb (neg xs i) (neg xs (S i))).
 Definition zcs (xs : list Z) : list nat :=
   filter (sign_change xs) (seq 0 (length xs - 1)).
 
@@ -78,8 +81,22 @@ Definition mkpass (xs : list Z) (root : nat -> Q) (rf : nat * nat) : pass :=
          (Qmin fall (inject_Z (Z.of_nat middle + 1))).
 
 Definition pass_pairs (xs : list Z) : list (nat * nat) := pairs xs (zcs xs) None.
+(* `if not risemins < fallmins: continue` (after `if risetime is None: continue`; it does not touch
+   the loop state, so it is a filter on the emitted pairs) *)
+Definition Qltb (x y : Q) : bool := negb (Qle_bool y x).
+Definition proper (root : nat -> Q) (rf : nat * nat) : bool := Qltb (root (fst rf)) (root (snd rf)).
 Definition passes (xs : list Z) (root : nat -> Q) : list pass :=
-  map (mkpass xs root) (pass_pairs xs).
+  map (mkpass xs root) (filter (proper root) (pass_pairs xs)).
+
+(* --- the logic BEFORE fixes b1a947a and f25c902 (kept only to document why it was needed):
+   zcs = np.where(np.diff(np.sign(elev)))[0] with the three-valued np.sign, so that a sample exactly
+   on the horizon produced TWO indices, the second always classified as a fall; no rise < fall guard --- *)
+Definition sign_change3 (xs : list Z) (i : nat) : bool :=
+  negb (Z.sgn (sample xs i) =? Z.sgn (sample xs (S i))).
+Definition zcs3 (xs : list Z) : list nat :=
+  filter (sign_change3 xs) (seq 0 (length xs - 1)).
+Definition passes_before_fix (xs : list Z) (root : nat -> Q) : list pass :=
+  map (mkpass xs root) (pairs xs (zcs3 xs) None).
 
 (* --- used by the correspondence run: the oracle as a finite table aligned with zcs --- *)
 Fixpoint lookup (tbl : list (nat * Q)) (g : nat) : Q :=
@@ -94,3 +111,14 @@ Definition pass_code (p : pass) :=
 Definition run_table (xs : list Z) (roots : list Q) :=
   let z := zcs xs in
   (map Z.of_nat z, map pass_code (passes xs (lookup (combine z roots)))).
+(* flat integer rendering for checks/c03.py:
+   [#zcs; zcs...; #passes; per pass: rg fg int_start int_end ok middle lo_num lo_den hi_num hi_den] *)
+Definition pass_flat (p : pass) : list Z :=
+  let (ln, ld) := qpair (p_lo p) in
+  let (hn, hd) := qpair (p_hi p) in
+  [Z.of_nat (p_rg p); Z.of_nat (p_fg p); Z.of_nat (p_istart p); Z.of_nat (p_iend p);
+   if p_ok p then 1 else 0; Z.of_nat (p_middle p); ln; ld; hn; hd].
+Definition run_flat (xs : list Z) (roots : list Q) : list Z :=
+  let z := zcs xs in
+  let ps := passes xs (lookup (combine z roots)) in
+  Z.of_nat (length z) :: map Z.of_nat z ++ Z.of_nat (length ps) :: flat_map pass_flat ps.
